@@ -634,4 +634,39 @@ theorem written_chunk (c : ColSpec) (hpt : c.ptype ≤ 7) (cats : List Cell) (pa
     rw [written_pages_decode c hpt cats pages _ (by intro _; rfl) hok, foldl_accAfter]
     exact ⟨_, rfl, by simpa using scatter_pages c cats pages hnn, by simp, rfl, by simp⟩
 
+/-! ### chunk metadata: `encodings` and `encoding_stats` describe the pages present -/
+
+theorem chunk_page_kinds (c : ColSpec) (cats : List Cell) (pages : List (List Cell)) :
+    (writerChunk c cats pages).map (fun x => (x.1.ptypeTag, x.1.encoding))
+      = (if c.dictItem.isSome then [(2, ENC_PLAIN)] else [])
+        ++ List.replicate pages.length (if c.v2 then 3 else 0, if c.dictItem.isSome then ENC_RLE_DICTIONARY else ENC_PLAIN) := by
+  unfold writerChunk
+  rw [List.map_append, List.map_map]
+  congr 1
+  · split <;> simp [writerDictInfo]
+  · induction pages with
+    | nil => simp
+    | cons p ps ih =>
+      rw [List.map_cons, ih, List.length_cons, List.replicate_succ]
+      simp [writerPageInfo]
+
+theorem filter_replicate_self {α} [BEq α] [LawfulBEq α] (n : Nat) (a : α) : ((List.replicate n a).filter (· == a)).length = n := by
+  rw [List.filter_eq_self.mpr (by intro x hx; rw [List.eq_of_mem_replicate hx]; simp)]
+  simp
+
+theorem filter_replicate_ne {α} [BEq α] [LawfulBEq α] (n : Nat) (a b : α) (h : a ≠ b) : ((List.replicate n a).filter (· == b)).length = 0 := by
+  rw [List.filter_eq_nil_iff.mpr (by intro x hx; rw [List.eq_of_mem_replicate hx]; simpa using h)]
+  simp
+
+/-- **the encodings list and the per-page-kind statistics `write_column` records describe exactly the pages of the
+    chunk** (data pages counted under the page type they really have: DATA_PAGE_V2 under v2) -/
+theorem written_chunk_meta (c : ColSpec) (cats : List Cell) (pages : List (List Cell)) :
+    encodingsProblem (writerEncodings c) (some (writerEncStats c pages.length))
+      ((writerChunk c cats pages).map (fun x => (x.1.ptypeTag, x.1.encoding))) = none := by
+  rw [chunk_page_kinds]
+  unfold encodingsProblem writerEncodings writerEncStats
+  cases hd : c.dictItem.isSome <;> cases hv : c.v2 <;>
+    simp [ENC_PLAIN, ENC_RLE_DICTIONARY, List.find?_eq_none, List.filter_cons, filter_replicate_self, filter_replicate_ne,
+      List.mem_replicate, List.filter_append]
+
 end PqV.Impl
